@@ -103,6 +103,10 @@ def exhaustive(tier):
 def check(desc, res, prefix='C03'):
     """run one descriptor; returns the matching model (or None)"""
     results, log, info = fsmlab.run_real(desc)
+    if 'livelock' in info:
+        res.fail(f'{prefix}.livelock', "the FSM keeps the event loop busy without any time passing: "
+                 + info['livelock'])
+        return None
     if 'build_error' in info:
         res.fail(f'{prefix}.build_failed', info['build_error'])
         return None
